@@ -78,6 +78,11 @@ class SyncEngine(BaseEngine):
                     raise
         finally:
             self._processing.release()
+        if self._external_queue:
+            # Another thread enqueued an event after the last emptiness test above but before
+            # the lock was released: it failed to acquire the lock and has already returned,
+            # so nobody else is going to process that event. Drain the queue again.
+            self.processing_loop()
         return first_result if first_result is not self._sentinel else None
 
     def _trigger(self, trigger_data: TriggerData):
